@@ -11,6 +11,9 @@ def run(ctx):
     prog = load.program('core-full')
     ctx.rules_run.append('F-FLOAT.enc: Encoder::f16/f32/f64 write the constant head followed by to_be_bytes of the untouched parameter')
     exp = {'f32': [0xfa, ('x', 4)], 'f64': [0xfb, ('x', 8)], 'f16': [0xf9, ('f16::to_bits(f16::from_f32(x))', 2)]}
+    half = prog.feature('half')
+    if not half:
+        del exp['f16']      # documented: the half-precision methods exist only with feature `half`
     for mth, (head, (nm, n)) in exp.items():
         res = tables.enc_rows(prog, mth)
         if res is None:
@@ -33,6 +36,8 @@ def run(ctx):
     ctx.rules_run.append('F-FLOAT.dec: accept matrix f16 c f32 c f64, consumption 3/5/9, value = from_bits of the untouched argument (widening only)')
     specs = [('f16', ref_float({2: F16})), ('f32', ref_float({2: F16, 4: F32})),
              ('f64', ref_float({2: 'f64::from(' + F16 + ')', 4: 'f64::from(' + F32 + ')', 8: F64}))]
+    if not half:
+        specs = [('f32', ref_float({4: F32})), ('f64', ref_float({4: 'f64::from(' + F32 + ')', 8: F64}))]   # 0xf9 is a type error without `half`
     for name, ref in specs:
         try:
             acc.check_accessor(ctx, 'F-FLOAT.dec', name, prog, DEC + name, wrap_mixed(ctx, name, ref), floor_rows=20)
